@@ -138,6 +138,41 @@ theorem alias_resolution_total_false :
   simp only [resetWitness] at h1
   simp only [h1]
 
+/-! ## alias expansion hands yaml.v3 a cyclic tree when the cycle passes through an `!override` node
+
+`[&n1 !override {b: &n2 {services: *n1}, x-a: *n1}, *n2, *n2]`: `resolveReset` returns `!override` nodes as they are
+(no descent, no visit recorded); expanding `*n2` from outside replaces the alias `*n1` inside `n2` by a direct pointer
+to `n1`, whose child `n2` is.  `Decode` then recurses through `n1 → n2 → n1 → …` (yaml.v3 only guards alias nodes).
+Real code: stack exhaustion (key `hang@alias-override-cycle`). -/
+
+def directChild (arena : List Node) (a b : Nat) : Bool :=
+  match arena[a]? with
+  | some (.seq _ items) => items.contains b
+  | some (.map _ es) => es.any (fun e => e.2 == b)
+  | _ => false
+
+def overrideWitness : List Node :=
+  [.seq "" [1, 5, 6], .map "!override" [("b", 2), ("x-a", 4)], .map "" [("services", 3)], .alias 1, .alias 1, .alias 2, .alias 2]
+
+/-- "the resolved node graph is a tree along direct child pointers" is FALSE -/
+theorem resolve_output_tree_false :
+    ¬ (∀ (arena : List Node) (root fuel : Nat) (st : St) (r : Option Nat),
+        resolve fuel { arena := arena, visited := [], paths := [] } root [] = .ok (st, r) →
+        ∀ a b, directChild st.arena a b = true → directChild st.arena b a = false) := by
+  intro h
+  have hc : (match resolve 8 { arena := overrideWitness, visited := [], paths := [] } 0 [] with
+      | .ok (st, _) => directChild st.arena 1 2 && directChild st.arena 2 1
+      | .error _ => false) = true := by rfl
+  cases hres : resolve 8 { arena := overrideWitness, visited := [], paths := [] } 0 [] with
+  | error e => rw [hres] at hc; cases hc
+  | ok p =>
+    obtain ⟨st, r⟩ := p
+    rw [hres] at hc
+    simp only [Bool.and_eq_true] at hc
+    have := h overrideWitness 0 8 st r hres 1 2 hc.1
+    rw [hc.2] at this
+    cases this
+
 end ResetWitness
 
 end CV.C01.Neg
